@@ -358,6 +358,8 @@ type Engine struct {
 	model    map[string]string // non-nil: replay mode (concrete interpretation)
 	worldUsed bool
 	roDepth   int
+	harnessPkg string
+	nativeMode bool
 	feasCache map[[2]int]bool
 	allCovers bool
 	sigMsg    map[int]BytesV
@@ -1283,6 +1285,28 @@ func (e *Engine) coerce(s *St, v Value, t types.Type) []coerced {
 		if isByteSlice(t) {
 			if x, ok := v.(IntV); ok {
 				return e.intToBytes(s, x.t)
+			}
+		}
+		if eb, ok := u.Elem().Underlying().(*types.Basic); ok && eb.Info()&types.IsInteger != 0 { // []int from stored byte strings
+			if x, ok := v.(ListV); ok {
+				arr := s.heap[x.id].(ArrObj).e
+				out := make([]Value, len(arr))
+				changed := false
+				for i, el := range arr {
+					switch y := el.(type) {
+					case BytesV:
+						out[i] = IntV{bytesToInt(y.b)}
+						changed = true
+					case NullV:
+						out[i] = IntV{I(0)}
+						changed = true
+					default:
+						out[i] = el
+					}
+				}
+				if changed {
+					return one(ListV{e.alloc(s.State, ArrObj{out})})
+				}
 			}
 		}
 		if _, isStruct := u.Elem().Underlying().(*types.Struct); isStruct { // VM arrays of arrays -> []struct
